@@ -55,10 +55,26 @@ fn exact_value(p: &[f64; 6], v: f64, x: f64, r: &Dy) -> (Dy, Dy) {
 }
 
 fn one_v(v: f64, scale_big: bool, cx: &mut Cx) -> Verdict {
+    one_v_forms(v, scale_big, cx, forms())
+}
+/// every combination of zero / non-zero among c1..c4 and u (k non-zero): fast paths keyed on which parameters vanish
+fn zero_pattern_forms() -> Vec<(&'static str, [f64; 6])> {
+    (0..32u32).map(|m| {
+        let val = [1.5, 0.5, 2.0, -0.75, 3.0];
+        let mut p = [0.25, 0.0, 0.0, 0.0, 0.0, 0.0];
+        for j in 0..5 {
+            if m >> j & 1 == 1 {
+                p[1 + j] = val[j];
+            }
+        }
+        ("zero pattern of (c1,c2,c3,c4,u)", p)
+    }).collect()
+}
+fn one_v_forms(v: f64, scale_big: bool, cx: &mut Cx, forms: Vec<(&'static str, [f64; 6])>) -> Verdict {
     let x = -(v.ln());
     let r = exact::series_r(x);
     let ten12 = Dy { m: Big::from_decimal("1000000000000"), e: 0 };
-    for (name, p0) in forms() {
+    for (name, p0) in forms {
         let mut p = p0;
         if scale_big && v > 1.0 {
             // keep the stated terms far below the overflow threshold: scale c and u by 2^-(exponent of v + 50)
@@ -178,6 +194,23 @@ pub fn check(thorough: bool, seed: u64) -> Check {
         classes: vec![("x<-1.71", true), ("-1.71<x<1.72", true), ("x>1.72", true)],
         bounds: json!({"arguments": format!("v_j = exp(-x_j), x_j = -40 + 80 (j+phase)/{n_grid}, j = 0..{n_grid} (VERIF_SEED shifts the phase)")}),
     };
+    let zp = Phase {
+        name: "zero-patterns-of-the-parameters",
+        units: 1,
+        split: 0,
+        body: Box::new(move |_unit, cx| {
+            let n = if thorough { 1600 } else { 400 };
+            let j = cx.choose(n + 9);
+            let v = if j < n { (-8.0 + 16.0 * j as f64 / n as f64).exp() } else { [1.0, 0.05, 0.5, 2.0, 1e-30, 1e30, 1e-300, 1e300, 0.9999999999][j - n] };
+            cx.nontrivial();
+            if cx.sampling() {
+                cx.sample(json!({"v": fj(v), "forms": "all 32 zero patterns of (c1,c2,c3,c4,u), k = 0.25"}));
+            }
+            one_v_forms(v, v > 1e100, cx, zero_pattern_forms())
+        }),
+        classes: vec![],
+        bounds: json!({"forms": "k = 0.25 and every subset of (c1,c2,c3,c4,u) = (1.5,0.5,2,-0.75,3) set to zero (32 forms)", "arguments": if thorough {"v = exp(t), t = -8 + 16 j/1600, and {1,0.05,0.5,2,1e-30,1e30,1e-300,1e300,1-1e-10}"} else {"v = exp(t), t = -8 + 16 j/400, and {1,0.05,0.5,2,1e-30,1e30,1e-300,1e300,1-1e-10}"}}),
+    };
     let binades: Vec<f64> = (-1022..=1023).flat_map(|j| [2f64.powi(j), 1.5 * 2f64.powi(j)]).collect();
     let nb = binades.len();
     let binades = Arc::new(binades);
@@ -223,7 +256,7 @@ pub fn check(thorough: bool, seed: u64) -> Check {
         rule: "each leaf is one argument v evaluated by the real IntOfLogPoly4::evaluate for all nineteen parameter sets and compared with the exact value (x = -ln v as f64, R(x) from a >200-bit integer series); every float of the stated neighbourhoods, every grid point and every binade is enumerated; all leaves are non-trivial (distinct v)".into(),
         assumptions: vec!["f64::ln within 1 ulp: the oracle uses the same f64 x = -ln v as the subject (its effect on the stated formula is <= 1.2e-13 of the term magnitudes)".into(),
                           "one subnormal ulp (2^-1074) of absolute slack for gradual underflow".into()],
-        phases: vec![near, grid, bin, sub],
+        phases: vec![near, grid, bin, sub, zp],
         extra: Default::default(),
         controls: vec![("oracle rejects a value off by 1e-11 relative", Box::new(|| {
             let p = [1.0, 0.5, -0.25, 0.125, 1.0, -1.0];
